@@ -16,20 +16,18 @@ From GV Require Import Prelude TimeM GeomM GeomP GeomP2 GeomP3 GeomP4 GeomP6 Swe
 Open Scope Z_scope.
 
 (* ------------------------------------------------------------------ hits of axis-aligned segments *)
+Definition inr (a lo hi : Z) : bool := (lo <=? a) && (a <=? hi).
+
 (* a horizontal and a vertical segment (both of positive length, increasing direction): closed
    interval conditions *)
 Lemma hit_hv l r h v b t : l < r -> b < t ->
-  hit ((l, h), (r, h)) ((v, b), (v, t)) = (l <=? v) && (v <=? r) && (b <=? h) && (h <=? t).
+  hit ((l, h), (r, h)) ((v, b), (v, t)) = inr v l r && inr h b t.
 Proof.
-  intros Hlr Hbt. apply eq_true_iff_eq. rewrite hit_spec.
+  intros Hlr Hbt. unfold inr. apply eq_true_iff_eq. rewrite hit_spec.
   unfold nonparallel, on_seg_q, on_line, in_box, px, py. cbn [fst snd].
-  rewrite !Z.min_l, !Z.max_r by lia. rewrite !Z.sub_diag, !Z.mul_0_l, !Z.mul_0_r, !Z.sub_0_r.
+  rewrite !Z.min_l, !Z.max_r by lia.
   split.
-  - intros (_ & xn & yn & dv & Hd & (L1 & (B1 & B2)) & (L2 & (B3 & B4))).
-    rewrite Z.sub_0_l in L2.
-    assert (Y : yn - h * dv = 0) by (apply Z.mul_eq_0 in L1; lia).
-    assert (X : xn - v * dv = 0).
-    { apply Z.opp_inj_wd in L2. rewrite Z.opp_involutive, Z.opp_0 in L2. apply Z.mul_eq_0 in L2. lia. }
+  - intros (_ & xn & yn & dv & Hd & (_ & (B1 & B2)) & (_ & (B3 & B4))).
     assert (xn = v * dv) by lia. assert (yn = h * dv) by lia. subst xn yn.
     assert (l <= v) by (apply (mul_le_cancel_pos l v dv); lia).
     assert (v <= r) by (apply (mul_le_cancel_pos v r dv); lia).
@@ -37,12 +35,12 @@ Proof.
     assert (h <= t) by (apply (mul_le_cancel_pos h t dv); lia).
     lia.
   - intro H. split.
-    + intro E. apply Z.mul_eq_0 in E. lia.
-    + exists v, h, 1. rewrite !Z.mul_1_r, !Z.sub_diag, !Z.mul_0_r. lia.
+    + intro E. assert (E' : (l - r) * (b - t) = 0) by lia. apply Z.mul_eq_0 in E'. lia.
+    + exists v, h, 1. lia.
 Qed.
 
 Lemma hit_vh l r h v b t : l < r -> b < t ->
-  hit ((v, b), (v, t)) ((l, h), (r, h)) = (l <=? v) && (v <=? r) && (b <=? h) && (h <=? t).
+  hit ((v, b), (v, t)) ((l, h), (r, h)) = inr v l r && inr h b t.
 Proof. intros. rewrite hit_sym. now apply hit_hv. Qed.
 
 (* parallel segments never "hit" (find_line_intersection returns None): the documented exception *)
@@ -63,14 +61,12 @@ Qed.
 Definition sides (x0 y0 x1 y1 : Z) : list seg :=
   [((x0, y0), (x0, y1)); ((x0, y0), (x1, y0)); ((x1, y0), (x1, y1)); ((x0, y1), (x1, y1))].
 
-Definition hv (l r h v b t : Z) : bool := (l <=? v) && (v <=? r) && (b <=? h) && (h <=? t).
-
-(* some side of A meets some side of B: a horizontal side of one and a vertical side of the other *)
+(* some side of A meets some side of B (a horizontal side of one and a vertical side of the
+   other): an end of B's x-range lies in A's x-range and an end of A's y-range in B's y-range, or
+   the same with A and B exchanged *)
 Definition sides_meet (xa0 ya0 xa1 ya1 xb0 yb0 xb1 yb1 : Z) : bool :=
-  hv xa0 xa1 ya0 xb0 yb0 yb1 || hv xa0 xa1 ya0 xb1 yb0 yb1 ||
-  hv xa0 xa1 ya1 xb0 yb0 yb1 || hv xa0 xa1 ya1 xb1 yb0 yb1 ||
-  hv xb0 xb1 yb0 xa0 ya0 ya1 || hv xb0 xb1 yb0 xa1 ya0 ya1 ||
-  hv xb0 xb1 yb1 xa0 ya0 ya1 || hv xb0 xb1 yb1 xa1 ya0 ya1.
+  (inr xb0 xa0 xa1 || inr xb1 xa0 xa1) && (inr ya0 yb0 yb1 || inr ya1 yb0 yb1) ||
+  (inr xa0 xb0 xb1 || inr xa1 xb0 xb1) && (inr yb0 ya0 ya1 || inr yb1 ya0 ya1).
 
 Lemma brute_sides xa0 ya0 xa1 ya1 xb0 yb0 xb1 yb1 :
   xa0 < xa1 -> ya0 < ya1 -> xb0 < xb1 -> yb0 < yb1 ->
@@ -79,7 +75,27 @@ Lemma brute_sides xa0 ya0 xa1 ya1 xb0 yb0 xb1 yb1 :
 Proof.
   intros. unfold brute, sides. cbn [existsb].
   rewrite !hit_vv, !hit_hh, !hit_hv, !hit_vh by assumption.
-  unfold sides_meet, hv. lia.
+  unfold sides_meet.
+  generalize (inr xb0 xa0 xa1) (inr xb1 xa0 xa1) (inr ya0 yb0 yb1) (inr ya1 yb0 yb1)
+             (inr xa0 xb0 xb1) (inr xa1 xb0 xb1) (inr yb0 ya0 ya1) (inr yb1 ya0 ya1).
+  intros [] [] [] [] [] [] [] []; reflexivity.
+Qed.
+
+(* one axis: no end of [lo', hi'] lies in [lo, hi] *)
+Lemma no_end_in lo hi lo' hi' : lo < hi -> lo' < hi' ->
+  (inr lo' lo hi || inr hi' lo hi = false <-> hi' < lo \/ hi < lo' \/ (lo' < lo /\ hi < hi')).
+Proof. unfold inr. lia. Qed.
+
+Lemma sides_meet_false xa0 ya0 xa1 ya1 xb0 yb0 xb1 yb1 :
+  xa0 < xa1 -> ya0 < ya1 -> xb0 < xb1 -> yb0 < yb1 ->
+  (sides_meet xa0 ya0 xa1 ya1 xb0 yb0 xb1 yb1 = false <->
+   ((xb1 < xa0 \/ xa1 < xb0 \/ (xb0 < xa0 /\ xa1 < xb1)) \/
+    (ya1 < yb0 \/ yb1 < ya0 \/ (ya0 < yb0 /\ yb1 < ya1))) /\
+   ((xa1 < xb0 \/ xb1 < xa0 \/ (xa0 < xb0 /\ xb1 < xa1)) \/
+    (yb1 < ya0 \/ ya1 < yb0 \/ (yb0 < ya0 /\ ya1 < yb1)))).
+Proof.
+  intros. unfold sides_meet. rewrite orb_false_iff, !andb_false_iff, !no_end_in by assumption.
+  reflexivity.
 Qed.
 
 (* the answers, as formulas in the eight coordinates *)
@@ -128,31 +144,39 @@ Proof.
   - intro H. pose proof (H xb0 yb0 ltac:(lia)). pose proof (H xb1 yb1 ltac:(lia)). lia.
 Qed.
 
+(* disjoint closed rectangles: no sides meet *)
+Lemma disjoint_no_sides xa0 ya0 xa1 ya1 xb0 yb0 xb1 yb1 :
+  xa0 < xa1 -> ya0 < ya1 -> xb0 < xb1 -> yb0 < yb1 ->
+  xa1 < xb0 \/ xb1 < xa0 \/ ya1 < yb0 \/ yb1 < ya0 ->
+  sides_meet xa0 ya0 xa1 ya1 xb0 yb0 xb1 yb1 = false.
+Proof. intros ? ? ? ? D. apply sides_meet_false; [assumption..|]. lia. Qed.
+
 (* ------------------------------------------------------------------ rectangle-like shapes *)
-Record rectlike (w : Z) (s : shape) (x0 y0 x1 y1 : Z) : Prop := {
+Record rectlike (w wb : Z) (s : shape) (x0 y0 x1 y1 : Z) : Prop := {
   rl_valid : valid s;
   rl_area : is_area s = true;
   rl_edges : edge_equiv (all_edges s) (sides x0 y0 x1 y1);
   rl_first : In (first_pt s) (rect x0 y0 x1 y1);
-  rl_open : forall p, w <= px p -> open_box x0 y0 x1 y1 p -> contains_coordinate w s p = true;
-  rl_closed : forall p, contains_coordinate w s p = true -> x0 <= px p <= x1 /\ y0 <= py p <= y1
+  rl_open : forall p, wb <= px p -> open_box x0 y0 x1 y1 p -> contains_coordinate w s p = true;
+  rl_closed : forall p, wb <= px p -> contains_coordinate w s p = true ->
+                        x0 <= px p <= x1 /\ y0 <= py p <= y1
 }.
 
 Lemma is_area_not_pt s : is_area s = true -> is_pt s = false.
 Proof. destruct s; cbn; congruence. Qed.
 
 Section Two.
-  Variable w : Z.
+  Variables w wb : Z.
   Variables (a b : shape) (xa0 ya0 xa1 ya1 xb0 yb0 xb1 yb1 : Z).
-  Hypothesis Ra : rectlike w a xa0 ya0 xa1 ya1.
-  Hypothesis Rb : rectlike w b xb0 yb0 xb1 yb1.
+  Hypothesis Ra : rectlike w wb a xa0 ya0 xa1 ya1.
+  Hypothesis Rb : rectlike w wb b xb0 yb0 xb1 yb1.
   Hypothesis Hxa : xa0 < xa1. Hypothesis Hya : ya0 < ya1.
   Hypothesis Hxb : xb0 < xb1. Hypothesis Hyb : yb0 < yb1.
-  Hypothesis Hwa : w <= xa0. Hypothesis Hwb : w <= xb0.
+  Hypothesis Hwa : wb <= xa0. Hypothesis Hwb : wb <= xb0.
 
   Lemma edge_part_rect : edge_part a b = sides_meet xa0 ya0 xa1 ya1 xb0 yb0 xb1 yb1.
   Proof.
-    unfold edge_part. rewrite (brute_equiv _ _ _ _ (rl_edges _ _ _ _ _ _ Ra) (rl_edges _ _ _ _ _ _ Rb)).
+    unfold edge_part. rewrite (brute_equiv _ _ _ _ (rl_edges _ _ _ _ _ _ _ Ra) (rl_edges _ _ _ _ _ _ _ Rb)).
     now apply brute_sides.
   Qed.
 
@@ -166,16 +190,21 @@ Section Two.
     cbn [rect In] in Fa, Fb.
     apply eq_true_iff_eq. rewrite !orb_true_iff. split.
     - intros [[H|H]|H].
-      + unfold sides_meet, hv in H. unfold rects_meet. lia.
-      + apply Ca in H. unfold px, py in H. cbn [fst snd] in H. unfold rects_meet.
-        destruct Fb as [E|[E|[E|[E|[]]]]]; injection E as <- <-; lia.
-      + apply Cb in H. unfold px, py in H. cbn [fst snd] in H. unfold rects_meet.
-        destruct Fa as [E|[E|[E|[E|[]]]]]; injection E as <- <-; lia.
+      + unfold rects_meet.
+        destruct (Z.max xa0 xb0 <=? Z.min xa1 xb1) eqn:E1; [destruct (Z.max ya0 yb0 <=? Z.min ya1 yb1) eqn:E2; [reflexivity|]|];
+          rewrite (disjoint_no_sides _ _ _ _ _ _ _ _ Hxa Hya Hxb Hyb) in H by lia; discriminate.
+      + unfold rects_meet.
+        destruct Fb as [E|[E|[E|[E|[]]]]]; injection E as <- <-;
+          (apply Ca in H; [|unfold px; cbn [fst]; lia]); unfold px, py in H; cbn [fst snd] in H; lia.
+      + unfold rects_meet.
+        destruct Fa as [E|[E|[E|[E|[]]]]]; injection E as <- <-;
+          (apply Cb in H; [|unfold px; cbn [fst]; lia]); unfold px, py in H; cbn [fst snd] in H; lia.
     - intro H. unfold rects_meet in H.
       destruct (sides_meet xa0 ya0 xa1 ya1 xb0 yb0 xb1 yb1) eqn:S; [now left; left|].
-      unfold sides_meet, hv in S.
+      apply sides_meet_false in S; [|assumption..].
       assert (N : (xa0 < xb0 /\ xb1 < xa1 /\ ya0 < yb0 /\ yb1 < ya1) \/
-                  (xb0 < xa0 /\ xa1 < xb1 /\ yb0 < ya0 /\ ya1 < yb1)) by lia.
+                  (xb0 < xa0 /\ xa1 < xb1 /\ yb0 < ya0 /\ ya1 < yb1)).
+      { destruct S as [[S1|S1] [S2|S2]]; lia. }
       destruct N as [N|N].
       + left. right. apply Oa; unfold open_box, px, py; cbn [fst snd];
           destruct Fb as [E|[E|[E|[E|[]]]]]; injection E as <- <-; lia.
@@ -191,12 +220,185 @@ Section Two.
     rewrite edge_part_rect. f_equal.
     destruct (first_pt b) as [fbx fby] eqn:EB. cbn [rect In] in Fb.
     apply eq_true_iff_eq. rewrite andb_true_iff, negb_true_iff. split.
-    - intros [S H]. apply Ca in H. unfold px, py in H. cbn [fst snd] in H.
-      unfold sides_meet, hv in S. unfold rect_inside.
-      destruct Fb as [E|[E|[E|[E|[]]]]]; injection E as <- <-; lia.
+    - intros [S H].
+      apply sides_meet_false in S; [|assumption..]. unfold rect_inside.
+      destruct Fb as [E|[E|[E|[E|[]]]]]; injection E as <- <-;
+        (apply Ca in H; [|unfold px; cbn [fst]; lia]); unfold px, py in H; cbn [fst snd] in H;
+        destruct S as [[S1|S1] [S2|S2]]; lia.
     - intro H. unfold rect_inside in H. split.
-      + unfold sides_meet, hv. lia.
+      + apply sides_meet_false; [assumption..|]. lia.
       + apply Oa; unfold open_box, px, py; cbn [fst snd];
           destruct Fb as [E|[E|[E|[E|[]]]]]; injection E as <- <-; lia.
   Qed.
 End Two.
+
+(* ------------------------------------------------------------------ instances *)
+(* GeoBox without holes *)
+Lemma rectlike_box w wb nw se d :
+  rectlike w wb (Box nw se [] d) (px nw) (py se) (px se) (py nw).
+Proof.
+  destruct nw as [x0 y1], se as [x1 y0]. unfold px, py. cbn [fst snd]. constructor.
+  - exact I.
+  - reflexivity.
+  - split; intros e He; cbn in He |- *;
+      repeat (destruct He as [<-|He]; [cbn; auto 12|]); destruct He.
+  - cbn. auto.
+  - intros p _ O. cbn. unfold box_contains, box_in, open_box, px, py in *. cbn [fst snd existsb negb] in *.
+    destruct p as [a b]. cbn [fst snd] in *.
+    replace ((x0 <=? a) && (a <=? x1) && (y0 <=? b) && (b <=? y1)) with true by lia. reflexivity.
+  - intros p _ H. cbn in H. unfold box_contains, box_in, px, py in *. cbn [fst snd existsb negb] in *.
+    destruct p as [a b]. cbn [fst snd] in *.
+    destruct ((x0 <=? a) && (a <=? x1) && (y0 <=? b) && (b <=? y1)) eqn:E; [lia|discriminate].
+Qed.
+
+(* the outline GeoPolygon stores for a rectangle: any start vertex, either winding, closed and
+   re-oriented by the constructor *)
+Lemma rect_outline_struct x0 y0 x1 y1 k h r :
+  r = rect x0 y0 x1 y1 \/ r = rev (rect x0 y0 x1 y1) ->
+  let o := norm_outline h (reclose (rot k r)) in
+  (2 <= length o)%nat /\ edge_equiv (ring_edges o) (sides x0 y0 x1 y1) /\
+  In (hd0 o) (rect x0 y0 x1 y1).
+Proof.
+  intros [-> | ->]; destruct k as [|[|[|[|k]]]];
+    unfold rot; cbn [skipn firstn rev rect app]; rewrite ?skipn_nil, ?firstn_nil; cbn [app reclose];
+    unfold norm_outline, close_ring;
+    cbn [last]; rewrite !pt_eqb_refl;
+    destruct (negb _); cbn [rev app length ring_edges combine tl hd0 hd];
+    (split; [lia|]); (split; [|cbn; auto 8]);
+    split; intros e He; cbn [In] in He;
+      repeat (destruct He as [<-|He]; [cbn; auto 12|]); destruct He.
+Qed.
+
+Lemma rectlike_poly w x0 y0 x1 y1 k h d : x0 < x1 -> y0 < y1 -> w <= x0 ->
+  rectlike w w (Poly (norm_outline h (reclose (rot k (rect x0 y0 x1 y1)))) [] d) x0 y0 x1 y1 /\
+  rectlike w w (Poly (norm_outline h (reclose (rot k (rev (rect x0 y0 x1 y1))))) [] d) x0 y0 x1 y1.
+Proof.
+  intros Hx Hy Hw.
+  destruct (rect_outline_struct x0 y0 x1 y1 k h _ (or_introl eq_refl)) as (L1 & E1 & F1).
+  destruct (rect_outline_struct x0 y0 x1 y1 k h _ (or_intror eq_refl)) as (L2 & E2 & F2).
+  split; constructor; try assumption; try reflexivity.
+  - rewrite all_edges_poly. cbn [map concat]. now rewrite app_nil_r.
+  - intros p Hp O. cbn [contains_coordinate].
+    now apply (proj1 (poly_contains_rect w x0 y0 x1 y1 p k h Hx Hy Hw Hp)).
+  - intros p Hp H. cbn [contains_coordinate] in H.
+    apply (proj1 (poly_contains_rect w x0 y0 x1 y1 p k h Hx Hy Hw Hp)) in H. unfold open_box in H. lia.
+  - rewrite all_edges_poly. cbn [map concat]. now rewrite app_nil_r.
+  - intros p Hp O. cbn [contains_coordinate].
+    now apply (proj2 (poly_contains_rect w x0 y0 x1 y1 p k h Hx Hy Hw Hp)).
+  - intros p Hp H. cbn [contains_coordinate] in H.
+    apply (proj2 (poly_contains_rect w x0 y0 x1 y1 p k h Hx Hy Hw Hp)) in H. unfold open_box in H. lia.
+Qed.
+
+(* ------------------------------------------------------------------ the statements *)
+(* GeoBox x GeoBox, no hypothesis on the ray end [w] *)
+Theorem box_box_intersects w nwA seA dA nwB seB dB :
+  px nwA < px seA -> py seA < py nwA -> px nwB < px seB -> py seB < py nwB ->
+  intersects_shape w (Box nwA seA [] dA) (Box nwB seB [] dB) =
+  Ok (rects_meet (px nwA) (py seA) (px seA) (py nwA) (px nwB) (py seB) (px seB) (py nwB)).
+Proof.
+  intros. apply (rect_intersects w (Z.min (px nwA) (px nwB))); try assumption; try lia;
+    apply rectlike_box.
+Qed.
+
+Theorem box_box_contains w nwA seA dA nwB seB dB :
+  px nwA < px seA -> py seA < py nwA -> px nwB < px seB -> py seB < py nwB ->
+  contains_shape w (Box nwA seA [] dA) (Box nwB seB [] dB) =
+  Ok (rect_inside (px nwA) (py seA) (px seA) (py nwA) (px nwB) (py seB) (px seB) (py nwB)).
+Proof.
+  intros. apply (rect_contains w (Z.min (px nwA) (px nwB))); try assumption; try lia;
+    apply rectlike_box.
+Qed.
+
+(* the whole family: a GeoBox, or a GeoPolygon of the rectangle outline in any rotation and either
+   winding, as the constructor stores it *)
+Definition rect_shape (s : shape) (x0 y0 x1 y1 : Z) : Prop :=
+  (exists d, s = Box (x0, y1) (x1, y0) [] d) \/
+  (exists k h d, s = Poly (norm_outline h (reclose (rot k (rect x0 y0 x1 y1)))) [] d) \/
+  (exists k h d, s = Poly (norm_outline h (reclose (rot k (rev (rect x0 y0 x1 y1))))) [] d).
+
+Lemma rect_shape_like w s x0 y0 x1 y1 : x0 < x1 -> y0 < y1 -> w <= x0 ->
+  rect_shape s x0 y0 x1 y1 -> rectlike w w s x0 y0 x1 y1.
+Proof.
+  intros Hx Hy Hw [(d & ->)|[(k & h & d & ->)|(k & h & d & ->)]].
+  - apply (rectlike_box w w (x0, y1) (x1, y0) d).
+  - now apply rectlike_poly.
+  - now apply rectlike_poly.
+Qed.
+
+Theorem rect_shapes_relations w a b xa0 ya0 xa1 ya1 xb0 yb0 xb1 yb1 :
+  rect_shape a xa0 ya0 xa1 ya1 -> rect_shape b xb0 yb0 xb1 yb1 ->
+  xa0 < xa1 -> ya0 < ya1 -> xb0 < xb1 -> yb0 < yb1 -> w <= xa0 -> w <= xb0 ->
+  intersects_shape w a b = Ok (rects_meet xa0 ya0 xa1 ya1 xb0 yb0 xb1 yb1) /\
+  contains_shape w a b = Ok (rect_inside xa0 ya0 xa1 ya1 xb0 yb0 xb1 yb1).
+Proof.
+  intros Sa Sb ? ? ? ? ? ?.
+  assert (Ra : rectlike w w a xa0 ya0 xa1 ya1) by now apply rect_shape_like.
+  assert (Rb : rectlike w w b xb0 yb0 xb1 yb1) by now apply rect_shape_like.
+  split; [now apply (rect_intersects w w)|now apply (rect_contains w w)].
+Qed.
+
+(* with a point: the box is closed (its frame counts, for intersects AND for contains), the
+   rectangle polygon is open *)
+Theorem box_pt_relations w nw se d p d' :
+  intersects_shape w (Box nw se [] d) (Pt p d') = Ok (box_in nw se p) /\
+  intersects_shape w (Pt p d') (Box nw se [] d) = Ok (box_in nw se p) /\
+  contains_shape w (Box nw se [] d) (Pt p d') = Ok (box_in nw se p) /\
+  (box_in nw se p = true <-> px nw <= px p <= px se /\ py se <= py p <= py nw).
+Proof.
+  assert (E : box_contains w nw se [] p = box_in nw se p).
+  { unfold box_contains. cbn [existsb negb]. destruct (box_in nw se p); reflexivity. }
+  destruct (point_rel_spec w) as (_ & B & _). destruct (B nw se [] d p d') as (B1 & B2 & B3).
+  rewrite E in B1, B2, B3. split; [exact B1|]. split; [exact B2|]. split; [exact B3|]. apply box_in_spec.
+Qed.
+
+Theorem rectpoly_pt_relations w x0 y0 x1 y1 k h d p d' :
+  x0 < x1 -> y0 < y1 -> w <= x0 -> w <= px p ->
+  let A := Poly (norm_outline h (reclose (rot k (rect x0 y0 x1 y1)))) [] d in
+  exists r, intersects_shape w A (Pt p d') = Ok r /\ intersects_shape w (Pt p d') A = Ok r /\
+            contains_shape w A (Pt p d') = Ok r /\
+            (r = true <-> x0 < px p < x1 /\ y0 < py p < y1).
+Proof.
+  intros Hx Hy Hw Hp A. destruct (point_rel_spec w) as (P & _).
+  destruct (P (norm_outline h (reclose (rot k (rect x0 y0 x1 y1)))) [] d p d') as (P1 & P2 & P3).
+  eexists. split; [exact P1|]. split; [exact P2|]. split; [exact P3|].
+  apply (proj1 (poly_contains_rect w x0 y0 x1 y1 p k h Hx Hy Hw Hp)).
+Qed.
+
+(* the clause "contains = inside WITHOUT touching the boundary" read literally is false of a box
+   and a point on its frame (GeoBox.contains_coordinate is documented as closed, C01b) *)
+Theorem box_contains_frame_point_refuted :
+  exists nw se p, (px p = px nw /\ py se <= py p <= py nw) /\
+    contains_shape (-180) (Box nw se [] None) (Pt p None) = Ok true.
+Proof. exists (0, 2), (2, 0), (0, 1). split; [cbn; lia|vm_compute; reflexivity]. Qed.
+
+(* the same as planar set statements (integer points suffice, see rects_meet_spec_q) *)
+Theorem box_box_intersects_truth w nwA seA dA nwB seB dB :
+  px nwA < px seA -> py seA < py nwA -> px nwB < px seB -> py seB < py nwB ->
+  (exists r, intersects_shape w (Box nwA seA [] dA) (Box nwB seB [] dB) = Ok r) /\
+  (intersects_shape w (Box nwA seA [] dA) (Box nwB seB [] dB) = Ok true <->
+   exists p, box_closed nwA seA p /\ box_closed nwB seB p).
+Proof.
+  intros. rewrite box_box_intersects by assumption. split; [eauto|].
+  split.
+  - intros [= E]. apply rects_meet_spec in E. destruct E as (x & y & E).
+    exists (x, y). unfold box_closed, px, py. cbn [fst snd]. unfold px, py in E. lia.
+  - intros ([x y] & A & B). f_equal. apply rects_meet_spec. exists x, y.
+    unfold box_closed, px, py in *. cbn [fst snd] in *. lia.
+Qed.
+
+Theorem box_box_contains_truth w nwA seA dA nwB seB dB :
+  px nwA < px seA -> py seA < py nwA -> px nwB < px seB -> py seB < py nwB ->
+  (exists r, contains_shape w (Box nwA seA [] dA) (Box nwB seB [] dB) = Ok r) /\
+  (contains_shape w (Box nwA seA [] dA) (Box nwB seB [] dB) = Ok true <->
+   forall p, box_closed nwB seB p -> open_box (px nwA) (py seA) (px seA) (py nwA) p).
+Proof.
+  intros. rewrite box_box_contains by assumption. split; [eauto|].
+  assert (Hx : px nwB <= px seB) by lia. assert (Hy : py seB <= py nwB) by lia.
+  pose proof (rect_inside_spec (px nwA) (py seA) (px seA) (py nwA) _ _ _ _ Hx Hy) as S.
+  split.
+  - intros [= E] [x y] B. apply (proj1 S) with (x := x) (y := y) in E.
+    + unfold open_box, px, py in *. cbn [fst snd] in *. exact E.
+    + unfold box_closed, px, py in *. cbn [fst snd] in *. lia.
+  - intro A. f_equal. apply S. intros x y B.
+    specialize (A (x, y)). unfold box_closed, open_box, px, py in *. cbn [fst snd] in *. apply A. lia.
+Qed.
